@@ -7,17 +7,6 @@ Require Import MS.Base.GoInt MS.Base.Res MS.Base.F32 MS.Base.F64 MS.Model.Uda MS
 Require Export MS.Corr.AggCols.
 Local Open Scope Z_scope.
 
-Record kinput := {
-  ki_epoch : list Z;
-  ki_nanos : option (list Z);
-  ki_price : list (list kcol);     (* tick: one group; candle: Open, High, Low, Close groups *)
-  ki_acc : list kcol
-}.
-
-Definition mk_input (k : kinput) : cinput :=
-  {| in_epoch := ki_epoch k; in_nanos := ki_nanos k;
-     in_price := map (map mk_col) (ki_price k); in_acc := map mk_col (ki_acc k) |}.
-
 Record case := {
   k_mult : Z; k_suffix : string;            (* the timeframe literal "<mult><suffix>" *)
   k_sum_idx : list nat; k_avg_idx : list nat;
@@ -25,17 +14,6 @@ Record case := {
   k_code : nat;                             (* 0 ok, 1 an Accum returned an error, 2 panic *)
   k_out : list (list Z)                     (* output rows of the last Accum: epoch, o, h, l, c, sums…, avgs… *)
 }.
-
-Definition row_obs (r : orow) : list Z :=
-  o_epoch r :: f32_bits (o_o r) :: f32_bits (o_h r) :: f32_bits (o_l r) :: f32_bits (o_c r)
-  :: map f64_bits (o_sums r) ++ map f64_bits (o_avgs r).
-
-Fixpoint rows_eqb (a b : list (list Z)) : bool :=
-  match a, b with
-  | [], [] => true
-  | x :: a', y :: b' => zlist_eqb x y && rows_eqb a' b'
-  | _, _ => false
-  end.
 
 Definition model_run (k : case) : Res cmap :=
   run_accum (cd_of (k_mult k) (k_suffix k)) [] (map mk_input (k_inputs k)).
